@@ -236,4 +236,215 @@ theorem parsePrim_append {fl p ts e r} (tail : List Tok) (ht : Stop tail) (h : p
     parsePrim fl p (ts ++ tail) = some (e, r ++ tail) :=
   (append_aux fl tail ht ts.length ts (Nat.le_refl _)).1 p e r h
 
+
+/-! ### deepening round: the loop factors through precedence levels; grammar-level equation -/
+
+/-- Running the loop at a higher precedence first and then continuing at a lower one is the same as running it
+    at the lower one: the loop of `parse_boolean_primitive` factors through precedence levels. -/
+theorem loop_split_aux (fl : Flags) (p q : Nat) (hpq : q ≤ p) : ∀ (n : Nat) (ts : List Tok) (l : E), ts.length ≤ n →
+    loop fl q l ts = (loop fl p l ts).bind (fun x => loop fl q x.1 x.2) := by
+  intro n
+  induction n with
+  | zero =>
+    intro ts l h
+    have : ts = [] := by cases ts <;> simp_all
+    subst this
+    simp [loop_nil]
+  | succ n ih =>
+    intro ts l hlen
+    cases ts with
+    | nil => simp [loop_nil]
+    | cons t rest =>
+      by_cases hsp : stops t p = true
+      · rw [loop_stop fl p l t rest (Or.inl hsp)]; simp
+      · by_cases hb : isBin t = true
+        · have hsq : stops t q = false := by
+            simp only [stops, C12Tables.breakStrict, if_true, decide_eq_true_eq, decide_eq_false_iff_not] at hsp ⊢
+            omega
+          cases hp : parsePrim fl (prec t) rest with
+          | none =>
+            have e1 : loop fl q l (t :: rest) = none := by rw [loop]; simp [hsq, hb, hp]
+            have e2 : loop fl p l (t :: rest) = none := by rw [loop]; simp [hsp, hb, hp]
+            simp [e1, e2]
+          | some res =>
+            obtain ⟨right, r'⟩ := res
+            cases hm : mkInfix t l right with
+            | none =>
+              have e1 : loop fl q l (t :: rest) = none := by rw [loop]; simp [hsq, hb, hp, hm]
+              have e2 : loop fl p l (t :: rest) = none := by rw [loop]; simp [hsp, hb, hp, hm]
+              simp [e1, e2]
+            | some e =>
+              have hc := parsePrim_consumes hp
+              rw [loop_bin fl q l t rest r' right e hsq hb hp hm,
+                loop_bin fl p l t rest r' right e (by simpa using hsp) hb hp hm]
+              exact ih r' e (by simp at hlen; omega)
+        · have hb' : isBin t = false := by simpa using hb
+          rw [loop_stop fl p l t rest (Or.inr hb'), loop_stop fl q l t rest (Or.inr hb')]
+          simp [loop_stop fl q l t rest (Or.inr hb')]
+
+theorem loop_split (fl : Flags) (p q : Nat) (hpq : q ≤ p) (l : E) (ts : List Tok) :
+    loop fl q l ts = (loop fl p l ts).bind (fun x => loop fl q x.1 x.2) :=
+  loop_split_aux fl p q hpq ts.length ts l (Nat.le_refl _)
+
+
+/-- the same for a whole operand-and-loop: parsing at a low precedence = parsing at a higher one, then
+    continuing the loop at the low one -/
+theorem parsePrim_split (fl : Flags) (p q : Nat) (hpq : q ≤ p) (ts : List Tok) :
+    parsePrim fl q ts = (parsePrim fl p ts).bind (fun x => loop fl q x.1 x.2) := by
+  cases ts with
+  | nil => rw [parsePrim, parsePrim]; rfl
+  | cons t rest =>
+    cases t with
+    | atom n => rw [parsePrim_atom, parsePrim_atom]; exact loop_split fl p q hpq _ _
+    | lp =>
+      by_cases ha : fl.allowParens = true
+      · cases hp : parsePrim fl C12Tables.groupPrec rest with
+        | none => rw [parsePrim, parsePrim]; simp [ha, hp]
+        | some res =>
+          obtain ⟨e, r⟩ := res
+          cases r with
+          | nil => rw [parsePrim, parsePrim]; simp [ha, hp]
+          | cons t' r' =>
+            by_cases ht : t' = .rp
+            · subst ht
+              rw [parsePrim_group fl q rest r' e ha hp, parsePrim_group fl p rest r' e ha hp]
+              exact loop_split fl p q hpq _ _
+            · rw [parsePrim, parsePrim]; cases t' <;> simp_all
+      · rw [parsePrim, parsePrim]; simp [ha]
+    | not =>
+      by_cases ha : fl.allowNot = true
+      · cases hp : parsePrim fl C12Tables.notOperandPrec rest with
+        | none => rw [parsePrim, parsePrim]; simp [ha, hp]
+        | some res =>
+          obtain ⟨e, r'⟩ := res
+          rw [parsePrim_not fl q rest r' e ha hp, parsePrim_not fl p rest r' e ha hp]
+          exact loop_split fl p q hpq _ _
+      · rw [parsePrim, parsePrim]; simp [ha]
+    | op o => rw [parsePrim, parsePrim]; rfl
+    | rp => rw [parsePrim, parsePrim]; rfl
+    | junk => rw [parsePrim, parsePrim]; rfl
+
+
+/-- where a parse at precedence `p` stops: at the end, or at a token that breaks the loop at `p` -/
+def AtStop (p : Nat) (r : List Tok) : Prop :=
+  r = [] ∨ ∃ t r', r = t :: r' ∧ (stops t p = true ∨ isBin t = false)
+
+theorem loop_atStop_aux (fl : Flags) (p : Nat) : ∀ (n : Nat) (ts : List Tok) (l e : E) (r : List Tok), ts.length ≤ n →
+    loop fl p l ts = some (e, r) → AtStop p r := by
+  intro n
+  induction n with
+  | zero =>
+    intro ts l e r h hl
+    have : ts = [] := by cases ts <;> simp_all
+    subst this
+    rw [loop_nil] at hl; simp at hl; exact Or.inl hl.2
+  | succ n ih =>
+    intro ts l e r hlen hl
+    cases ts with
+    | nil => rw [loop_nil] at hl; simp at hl; exact Or.inl hl.2
+    | cons t rest =>
+      by_cases hsp : stops t p = true
+      · rw [loop_stop fl p l t rest (Or.inl hsp)] at hl; simp at hl
+        exact Or.inr ⟨t, rest, hl.2.symm, Or.inl hsp⟩
+      · by_cases hb : isBin t = true
+        · cases hp : parsePrim fl (prec t) rest with
+          | none => rw [loop] at hl; simp [hsp, hb, hp] at hl
+          | some res =>
+            obtain ⟨right, r'⟩ := res
+            cases hm : mkInfix t l right with
+            | none => rw [loop] at hl; simp [hsp, hb, hp, hm] at hl
+            | some e' =>
+              have hc := parsePrim_consumes hp
+              rw [loop_bin fl p l t rest r' right e' (by simpa using hsp) hb hp hm] at hl
+              exact ih r' e' e r (by simp at hlen; omega) hl
+        · have hb' : isBin t = false := by simpa using hb
+          rw [loop_stop fl p l t rest (Or.inr hb')] at hl; simp at hl
+          exact Or.inr ⟨t, rest, hl.2.symm, Or.inr hb'⟩
+
+theorem parsePrim_atStop {fl p ts e r} (h : parsePrim fl p ts = some (e, r)) : AtStop p r := by
+  have key : ∀ l ts', loop fl p l ts' = some (e, r) → AtStop p r :=
+    fun l ts' hl => loop_atStop_aux fl p ts'.length ts' l e r (Nat.le_refl _) hl
+  cases ts with
+  | nil => rw [parsePrim] at h; simp at h
+  | cons t rest =>
+    cases t with
+    | atom n => rw [parsePrim_atom] at h; exact key _ _ h
+    | lp =>
+      rw [parsePrim] at h
+      split at h
+      · simp at h
+      · split at h
+        · split at h
+          · exact key _ _ h
+          · simp at h
+        · simp at h
+    | not =>
+      rw [parsePrim] at h
+      split at h
+      · simp at h
+      · split at h
+        · split at h
+          · exact key _ _ h
+          · simp at h
+        · simp at h
+    | op o => rw [parsePrim] at h; simp at h
+    | rp => rw [parsePrim] at h; simp at h
+    | junk => rw [parsePrim] at h; simp at h
+
+
+/-- one level of the grammar: after an expression of the next-higher level, at most one operator of this level,
+    whose right operand is again an expression of this level (right recursion) -/
+def levelStep (fl : Flags) (q lv : Nat) (x : E × List Tok) : Option (E × List Tok) :=
+  match x.2 with
+  | [] => some (x.1, [])
+  | t :: r' =>
+    if stops t q || !isBin t then some (x.1, t :: r')
+    else (parsePrim fl lv r').bind fun y => (mkInfix t x.1 y.1).map fun e => (e, y.2)
+
+/-- **The Pratt parser satisfies the defining equation of a stratified right-recursive grammar level**, for all
+    token lists: parsing at precedence `q` = parsing at the next level `hi`, then `levelStep`. -/
+theorem level_eq (fl : Flags) (q hi lv : Nat) (hq : q ≤ hi)
+    (hS : ∀ t, isBin t = true → stops t hi = true → stops t q = false → prec t = lv)
+    (hstop : ∀ t, stops t lv = true → stops t q = true ∨ isBin t = false) (ts : List Tok) :
+    parsePrim fl q ts = (parsePrim fl hi ts).bind (levelStep fl q lv) := by
+  rw [parsePrim_split fl hi q hq ts]
+  cases h : parsePrim fl hi ts with
+  | none => rfl
+  | some x =>
+    obtain ⟨l, r⟩ := x
+    have hst := parsePrim_atStop h
+    simp only [Option.bind_some, levelStep]
+    cases r with
+    | nil => exact loop_nil ..
+    | cons t r' =>
+      by_cases hc : (stops t q || !isBin t) = true
+      · simp only [hc, if_true]
+        apply loop_stop
+        simpa using hc
+      · simp only [hc]
+        have hsq : stops t q = false := by simpa using (by simpa using hc : ¬ stops t q = true ∧ isBin t = true).1
+        have hb : isBin t = true := (by simpa using hc : ¬ stops t q = true ∧ isBin t = true).2
+        have hpt : prec t = lv := by
+          rcases hst with h0 | ⟨t0, r0, h0, h1⟩
+          · simp at h0
+          · simp at h0; obtain ⟨rfl, rfl⟩ := h0
+            rcases h1 with h1 | h1
+            · exact hS _ hb h1 hsq
+            · simp [hb] at h1
+        cases hp : parsePrim fl lv r' with
+        | none => rw [loop]; simp [hsq, hb, hpt, hp]
+        | some y =>
+          obtain ⟨z, r''⟩ := y
+          cases hm : mkInfix t l z with
+          | none => rw [loop]; simp [hsq, hb, hpt, hp, hm]
+          | some e =>
+            rw [loop_bin fl q l t r' r'' z e hsq hb (by rw [hpt]; exact hp) hm]
+            simp only [Option.bind_some, hm, Option.map_some, if_false, Bool.false_eq_true]
+            rcases parsePrim_atStop hp with h0 | ⟨t0, r0, rfl, h1⟩
+            · subst h0; exact loop_nil ..
+            · apply loop_stop
+              rcases h1 with h1 | h1
+              · exact hstop _ h1
+              · exact Or.inr h1
+
 end LiquidVerif.CondParse
